@@ -12,7 +12,7 @@ MANIFEST = {
     'text': 'Every sequence of <= 5 (thorough 6) tokens over a 16-token alphabet, every string of <= 4 characters over 20 characters, '
             'every single token deletion/insertion/replacement of every valid formula with <= 2 operators and every numeral spelling '
             'over three digits is given to the real parser: it must return or raise FormulaError (totality), agree with a reference '
-            'recogniser on accept/reject, and export the reference rendering for accepted input. A juxtaposition space puts 14 complete operand units side by side inside 10 contexts. Further spaces: every sequence of <= 4 (5) tokens over 14 that contains the range operator as a token of its own (rejected when an operand is missing on either side); every text without leading = made of 12 prefixes and <= 3 further characters (only a lone error literal is a formula); a defined name spelled like a function called in the same formula, in both orders; special reference tokens next to ordinary references under every reference operator.',
+            'recogniser on accept/reject, and export the reference rendering for accepted input. A juxtaposition space puts 14 complete operand units side by side inside 10 contexts. Further spaces: every sequence of <= 4 (5) tokens over 14 that contains the range operator as a token of its own (rejected when an operand is missing on either side); every text without leading = made of 12 prefixes and <= 3 further characters (only a lone error literal is a formula); a defined name spelled like a function called in the same formula, in both orders; special reference tokens next to ordinary references under every reference operator.' ' Later additions: the range operator as a token, text without leading "=" (also array-formula braces followed by more text), names spelled like called functions, hostless relative references, the spill operator over names, and every token sequence of <= 3 (thorough 4) tokens followed by !#REF! (only a sheet name may precede a qualified error literal).',
     'note': 'Trusted: ref/grammar.py recogniser. Sequences whose tokens merge lexically, x%%, parenthesised operands next to a space, '
             'and top-level unions are judged for totality only.',
 }
